@@ -596,7 +596,7 @@ def validate_loose(run, module, cfg, trace_path, tag=None, timeout=1500, xmx="6g
         pth, first = chunks[k]
         return tlc(run, module, cfg, mode="trace", workers=1, env={"TRACE": pth}, timeout=timeout,
                    tag="%s-%d" % (base, k), coverage=False, xmx=xmx, deadlock=False)
-    with ThreadPoolExecutor(max_workers=min(6, max(1, NCPU // 2))) as ex:
+    with ThreadPoolExecutor(max_workers=min(4, max(1, NCPU // 4))) as ex:
         results = list(ex.map(one, range(len(chunks))))
     total = {"distinct": sum(r["distinct"] for r in results), "generated": sum(r["generated"] for r in results), "out": ""}
     for k, res in enumerate(results):
